@@ -45,6 +45,7 @@ struct c07_ghost {
 	int close_calls, close_res; const void *close_builder; KSI_uint64_t close_level; int close_noVerify; KSI_Signature *sig;
 	int verify_calls, verify_res; const void *verify_sig, *verify_hash; KSI_uint64_t verify_level; const void *verify_policy, *verify_ctx;
 	int signtime_calls, signtime_res; const void *signtime_sig; KSI_Integer *signtime;
+	const void *ext_sig, *ext_to;                     /* arguments of KSI_signature_extendToWithoutVerification (recorded through its contract) */
 	/* releases */
 	int req_free, handle_free, resp_free, builder_free, sig_free, foreign_free;
 	int source_touched;                               /* a stub was asked to modify / release the source signature */
@@ -70,9 +71,17 @@ int KSI_Integer_new(KSI_CTX *ctx, KSI_uint64_t v, KSI_Integer **o) {
 	t = malloc(sizeof(*t)); if (t == NULL) return KSI_OUT_OF_MEMORY;
 	t->value = v; g_mk.int_live++; *o = t; return KSI_OK;
 }
+#ifdef C08_REAL_CREATE
+void KSI_Integer_free(KSI_Integer *o) { if (o != NULL) g_mk.int_live--; }      /* releases one reference */
+#else
 void KSI_Integer_free(KSI_Integer *o) { if (o != NULL) { g_mk.int_live--; free(o); } }
-KSI_Integer *KSI_Integer_ref(KSI_Integer *o) { return o; }
+#endif
+KSI_Integer *KSI_Integer_ref(KSI_Integer *o) { if (o != NULL) g_mk.int_live++; return o; }      /* one more reference */
+#ifdef C08_REAL_CREATE
+int KSI_Integer_compare(const KSI_Integer *a, const KSI_Integer *b);
+#else
 int KSI_Integer_compare(const KSI_Integer *a, const KSI_Integer *b) { return nondet_int(); }
+#endif
 #ifdef C07_REAL_CREATE
 int KSI_AggregationReq_new(KSI_CTX *ctx, KSI_AggregationReq **t) {
 	KSI_AggregationReq *r;
@@ -90,7 +99,23 @@ void KSI_AggregationReq_free(KSI_AggregationReq *t) {     /* = types.c:1978: rel
 #else
 void KSI_AggregationReq_free(KSI_AggregationReq *t) { if (t != NULL) { if ((void *)t == g_mk.req) g_sg.req_free++; else g_sg.foreign_free++; } }
 #endif
+#ifdef C08_REAL_CREATE
+int g_mk_cmp;                                         /* verdict of KSI_Integer_compare(start, end) */
+int KSI_ExtendReq_new(KSI_CTX *ctx, KSI_ExtendReq **t) {
+	KSI_ExtendReq *r;
+	g_mk.req_new_calls++;
+	if (nondet_bool()) return KSI_OUT_OF_MEMORY;
+	r = malloc(sizeof(*r)); if (r == NULL) return KSI_OUT_OF_MEMORY;
+	r->aggregationTime = NULL; r->publicationTime = NULL; g_mk.req_live++; g_mk.req = r; *t = r; return KSI_OK;
+}
+int KSI_ExtendReq_setAggregationTime(KSI_ExtendReq *t, KSI_Integer *v) { if (t == NULL || nondet_bool()) return KSI_INVALID_ARGUMENT; t->aggregationTime = v; return KSI_OK; }
+int KSI_ExtendReq_setPublicationTime(KSI_ExtendReq *t, KSI_Integer *v) { if (t == NULL || nondet_bool()) return KSI_INVALID_ARGUMENT; t->publicationTime = v; return KSI_OK; }
+void KSI_ExtendReq_free(KSI_ExtendReq *t) {      /* = types.c: releases both time references and the object */
+	if (t != NULL) { KSI_Integer_free(t->aggregationTime); KSI_Integer_free(t->publicationTime); g_mk.req_live--; free(t); }
+}
+#else
 void KSI_ExtendReq_free(KSI_ExtendReq *t) { if (t != NULL) { if ((void *)t == g_mk.req) g_sg.req_free++; else g_sg.foreign_free++; } }
+#endif
 
 /* ---- the conversation ---- */
 static struct KSI_NetHandle_st c07_handle_obj; static struct KSI_AggregationResp_st c07_aresp_obj; static struct KSI_ExtendResp_st c07_eresp_obj;
@@ -161,6 +186,9 @@ void KSI_AggregationResp_free(KSI_AggregationResp *r) { if (r != NULL) { if ((vo
 void KSI_ExtendResp_free(KSI_ExtendResp *r) { if (r != NULL) { if ((void *)r == g_sg.resp) g_sg.resp_free++; else g_sg.foreign_free++; } }
 void KSI_SignatureBuilder_free(KSI_SignatureBuilder *b) { if (b != NULL) { if (b == g_sg.builder) g_sg.builder_free++; else g_sg.foreign_free++; } }
 
+#ifdef C08_REAL_CREATE
+int KSI_Integer_compare(const KSI_Integer *a, const KSI_Integer *b) { return g_mk_cmp; }
+#endif
 #define C07_SIGN_ASSUMED \
 	"KSI_sendAggregatorRequest / KSI_sendExtenderRequest / KSI_RequestHandle_perform: arbitrary status, recorded (transport not modelled)", \
 	"KSI_RequestHandle_getAggregationResponse / getExtendResponse: arbitrary status, fresh response on OK (real bodies: C06.net_*_response)", \
